@@ -23,6 +23,7 @@ type Obligation struct {
 	Goal    *Term
 	Path    string
 	Inputs  []namedTerm // terms worth reporting from a model
+	Without []string
 	Note    string
 	// result
 	Res        SolverResult
@@ -139,6 +140,9 @@ func (ex *Exec) oblige(st *State, kind, name string, props []string, goal *Term,
 	}
 	o := &Obligation{Name: name, Kind: kind, Props: propSet(props), Fn: fnName(ex.top), Goal: goal,
 		Assumes: append([]*Term(nil), st.pc...), Note: note, Inputs: ex.inputs, Path: strings.Join(ex.pathTrace, ">")}
+	if ex.topC != nil {
+		o.Without = ex.topC.Without
+	}
 	ex.obls = append(ex.obls, o)
 }
 
@@ -286,7 +290,11 @@ func (ex *Exec) runBlock(st *State, b *ssa.BasicBlock, prev *ssa.BasicBlock, fro
 		case *ssa.Store:
 			ex.store(st, ex.val(st, x.Addr), ex.val(st, x.Val), x)
 		case *ssa.MapUpdate:
-			m := ex.val(st, x.Map).(VMap)
+			m, ok := ex.val(st, x.Map).(VMap)
+			if !ok || m.Cell <= 0 {
+				ex.note(st, "unmodelled-instruction:mapupdate on %s", typeShort(x.Map.Type()))
+				break
+			}
 			mv := st.cells[m.Cell].(VMapVal)
 			key := ex.val(st, x.Key).(VStr).T
 			st.cells[m.Cell] = VMapVal{Set: Store(mv.Set, key, TTrue)}
@@ -668,10 +676,16 @@ func (ex *Exec) store(st *State, addr, v Value, at ssa.Instruction) {
 		if pp.Cell < 0 {
 			return
 		}
+		if _, global := ex.globalVals[pp.Cell]; global && !ex.inInit && ex.top != nil {
+			ex.oblige(st, "pure", fnName(ex.top)+"#pure@global-write", []string{"C18"}, TFalse, "assignment to a package-level variable")
+		}
 		st.cells[pp.Cell] = updatePath(st.cells[pp.Cell], pp.Path, v)
 	case VBytePtr:
 		if ex.objs[pp.Obj].Opaque {
 			return
+		}
+		if _, global := ex.globalHeap[pp.Obj]; global && !ex.inInit {
+			ex.oblige(st, "pure", fnName(ex.top)+"#pure@global-write", []string{"C18"}, TFalse, "store into the memory of a package-level variable")
 		}
 		st.heap[pp.Obj] = Store(st.heap[pp.Obj], pp.Idx, v.(VBV).T)
 	default:
